@@ -224,10 +224,13 @@ fn selftest_determinism(tier: &str) -> i32 {
     let exe = std::env::current_exe().expect("current_exe");
     let n = if tier == "quick" { "400" } else { "2000" };
     let mut code = 0;
-    for prop in ENGINES_WITH_LOGHASH {
+    // quick: the seed in force; thorough: that seed and three others
+    let seeds: Vec<u64> = if tier == "quick" { vec![seed()] } else { vec![seed(), seed() + 1, 77, 1_234_567] };
+    for (prop, sd) in ENGINES_WITH_LOGHASH.iter().flat_map(|p| seeds.iter().map(move |s| (*p, *s))) {
         let run = |threads: &str, hang: &str| -> Option<String> {
             let out = std::process::Command::new(&exe)
                 .args(["loghash", prop, n])
+                .env("VERIF_SEED", sd.to_string())
                 .env("VERIF_THREADS", threads)
                 .env("VERIF_HANG_MS", hang)
                 .output()
@@ -242,10 +245,10 @@ fn selftest_determinism(tier: &str) -> i32 {
         let c = run("5", "60000");
         match (a, b, c) {
             (Some(a), Some(b), Some(c)) if a == b && b == c && a.lines().count() > 0 => {
-                println!("selftest determinism {}: {} runs, 3 processes (1, 16 and 5 workers), event logs identical", prop, a.lines().count());
+                println!("selftest determinism {} seed {}: {} runs, 3 processes (1, 16 and 5 workers), event logs identical", prop, sd, a.lines().count());
             }
             (a, b, _) => {
-                eprintln!("HARNESS-ERROR: determinism self-test failed for {}", prop);
+                eprintln!("HARNESS-ERROR: determinism self-test failed for {} seed {}", prop, sd);
                 if let (Some(a), Some(b)) = (a, b) {
                     for (la, lb) in a.lines().zip(b.lines()) {
                         if la != lb {
